@@ -41,11 +41,27 @@ class SeqVal:
         return z3.Length(self.term)
 
 
+class SymList:
+    """A Python list of strings of symbolic length that never becomes a solver term:
+    a length term plus an element function (index term -> string term)."""
+
+    _pyvc_symbolic = True
+
+    def __init__(self, len_t, getf):
+        self.len_t = len_t
+        self.getf = getf
+
+    def elem(self, i):
+        if isinstance(i, int):
+            i = z3.IntVal(i)
+        return self.getf(i)
+
+
 class LazyMap:
     """[f(x) for x in xs] over a sequence of symbolic length, all elements assumed to have
     succeeded; element i is produced on demand by re-running the body on xs[i]."""
 
-    def __init__(self, src: SeqVal, body):
+    def __init__(self, src, body):
         self.src = src
         self.body = body  # callable(value) -> value, runs under "no raise" assumption
 
@@ -104,3 +120,12 @@ class Opaque:
 
     def __repr__(self):
         return f"Opaque<{self.name}>"
+
+
+class LazyField:
+    """A field whose value is chosen (possibly forking) at first read."""
+
+    _pyvc_symbolic = True
+
+    def __init__(self, fn):
+        self.fn = fn
